@@ -26,6 +26,7 @@ def check(ctx):
     views = family_views(P, "Node")
     hooks(ctx, P, views, iters)
     edges(ctx, P)
+    detector_shape(ctx, P)
     loop(ctx, P, iters)
     ctx.assume("the knot search (detect_deadlock) and the incremental edge maintenance are not decided")
 
@@ -131,6 +132,52 @@ def edges(ctx, P):
     if "remove_edges_from" not in txt or "in_edges(str(server))" not in txt.replace(" ", "") or "out_edges(str(server))" not in txt.replace(" ", ""):
         ctx.violation(ob, "R5.edge-direction", "StateDigraph.action_at_detatch_server", "remove_edges_from(in_edges + out_edges)", "edges-not-removed",
                       "when a server is detached every wait-for edge from and to it must go", loc(fn) if fn else loc(ci.node))
+
+
+def detector_shape(ctx, P):
+    ob = ctx.ob("DETP", "detect_deadlock is a pure function of the state digraph (no memo, no early exit before the component scan); action_at_attach_server re-adds edges for every entry of the node's blocked queue")
+    ci = P.classes["StateDigraph"]
+    fn = ci.methods.get("detect_deadlock")
+    if fn is None:
+        raise AnalysisError("StateDigraph.detect_deadlock not found")
+    writes = [x for x in ast.walk(fn) if isinstance(x, (ast.Assign, ast.AugAssign)) and any(isinstance(t, ast.Attribute) for t in (x.targets if isinstance(x, ast.Assign) else [x.target]))]
+    reads = sorted(set(y.attr for y in ast.walk(fn) if isinstance(y, ast.Attribute) and isinstance(y.value, ast.Name) and y.value.id == "self"))
+    ob.ok("detect_deadlock:reads=%s" % reads, "detect_deadlock reads self.%s, writes nothing" % reads)
+    for w_ in writes:
+        ctx.violation(ob, "R10.detector-pure", "StateDigraph.detect_deadlock", unparse(w_)[:80], "detector-has-state",
+                      "detect_deadlock stores state between calls: a cached answer can be stale (same servers blocked, different destinations)", loc(w_))
+    if reads != ["statedigraph"]:
+        ctx.violation(ob, "R10.detector-pure", "StateDigraph.detect_deadlock", "reads self.%s" % reads, "detector-reads-other-state",
+                      "the verdict must depend on the wait-for graph only", loc(fn))
+    scan = [x for x in ast.walk(fn) if isinstance(x, ast.For) and "strongly_connected_components(self.statedigraph)" in unparse(x.iter)]
+    if not scan:
+        ctx.violation(ob, "R10.detector-pure", "StateDigraph.detect_deadlock", "component scan", "no-component-scan", "the knot search must examine the strongly connected components of the digraph", loc(fn))
+    else:
+        for r in [x for x in ast.walk(fn) if isinstance(x, ast.Return)]:
+            if r.lineno < scan[0].lineno:
+                ctx.violation(ob, "R10.detector-pure", "StateDigraph.detect_deadlock", unparse(r), "early-exit-before-scan", "the detector answers before it has looked at the graph", loc(r))
+    # re-added edges
+    fn = ci.methods.get("action_at_attach_server")
+    if fn is None:
+        raise AnalysisError("StateDigraph.action_at_attach_server not found")
+    ps = [a.arg for a in fn.args.args][1:]
+    edges = [x for x in ast.walk(fn) if isinstance(x, ast.Call) and call_name(x) == "add_edge"]
+    if len(edges) != 1:
+        ctx.violation(ob, "R5.edge-direction", "StateDigraph.action_at_attach_server", "%d add_edge calls" % len(edges), "attach-edges", "exactly one kind of edge is re-added at attach", loc(fn))
+    for e in edges:
+        a = [unparse(x).replace(" ", "") for x in e.args]
+        outer = None
+        p_ = e
+        while p_ is not fn:
+            p_ = p_._parent
+            if isinstance(p_, ast.For):
+                outer = p_
+        ob.ok("action_at_attach_server", "for ... in %s: add_edge(%s)" % (unparse(outer.iter) if outer else "?", ", ".join(a)))
+        if outer is None or unparse(outer.iter) != "%s.blocked_queue" % ps[0]:
+            ctx.violation(ob, "R5.edge-direction", "StateDigraph.action_at_attach_server", "for ... in %s" % (unparse(outer.iter) if outer else "?"), "not-all-blocked-entries",
+                          "edges must be re-added for every entry of %s.blocked_queue (several customers of one node may be blocked to it)" % ps[0], loc(outer) if outer else loc(fn))
+        if len(a) != 2 or not a[0].endswith(".server)") or a[1] != "str(%s)" % ps[1]:
+            ctx.violation(ob, "R5.edge-direction", "StateDigraph.action_at_attach_server", unparse(e), "edge-direction", "re-added edges point from the blocked customer's server to the newly attached server", loc(e))
 
 
 def loop(ctx, P, iters):
